@@ -797,6 +797,7 @@ def history_cases(ctx: fw.Ctx, sc: dict, w: cw.World) -> list[fw.Case]:
     for uid in w.objects:
         labels: list[str] = []
         data: list[Any] = []
+        st: dict = {'pending': False}
         k = 0
         ok = True
         while k < len(log) and ok:
@@ -839,7 +840,7 @@ def history_cases(ctx: fw.Ctx, sc: dict, w: cw.World) -> list[fw.Case]:
                 deferred: list[tuple[str, Any]] = []
                 for x in log[k:j + 1]:
                     if x['kind'] != 'end':
-                        deferred += _other_labels(ctx, w, uid, idx, x)
+                        deferred += _other_labels(ctx, w, uid, idx, x, st)
                 snap = log[j]['snap']
                 sn = ('{| n_running := ' + cq.clist(
                     cq.cpair(cq.cnat(idx[r['id']]), cq.cpair(cq.cnat(_local_ser(w, uid, r['ser'])),
@@ -851,7 +852,7 @@ def history_cases(ctx: fw.Ctx, sc: dict, w: cw.World) -> list[fw.Case]:
                     # call: the model's LProc has no label point there; validated up to here only
                     ctx.count('history', 'truncated: task ended between the phases of one process_spawning_cause')
                     break
-                if any(not (l_.startswith('LKEnter') or l_.startswith('LKLeave')) for (l_, _) in deferred):
+                if any(not l_.startswith('LKEnter') for (l_, _) in deferred):
                     # the killer's stop_daemon ran interleaved with this call (same virtual instant): the atomic LProc of the
                     # model cannot replay that order; the history is validated up to here, the monitors still see all of it
                     ctx.count('history', 'truncated: killer interleaved with process_spawning_cause')
@@ -866,7 +867,7 @@ def history_cases(ctx: fw.Ctx, sc: dict, w: cw.World) -> list[fw.Case]:
                 ctx.count('label', 'LProc')
                 k = j + 1
                 continue
-            for lab_, d_ in _other_labels(ctx, w, uid, idx, e):
+            for lab_, d_ in _other_labels(ctx, w, uid, idx, e, st):
                 labels.append(cq.cpair(lab_, 'None'))
                 data.append(d_)
             k += 1
@@ -878,20 +879,26 @@ def history_cases(ctx: fw.Ctx, sc: dict, w: cw.World) -> list[fw.Case]:
     return cases
 
 
-def _other_labels(ctx: fw.Ctx, w: cw.World, uid: str, idx: dict, e: dict) -> list[tuple[str, Any]]:
-    """Labels of the LTS for one log entry outside (or deferred from inside) a process_spawning_cause call."""
+def _other_labels(ctx: fw.Ctx, w: cw.World, uid: str, idx: dict, e: dict, st: dict) -> list[tuple[str, Any]]:
+    """Labels of the LTS for one log entry outside (or deferred from inside) a process_spawning_cause call.
+    `st['pending']`: this memory is in the killer's list of memories and its daemons have not been snapshotted yet."""
     out: list[tuple[str, Any]] = []
-    if e['kind'] in ('kenter', 'kleave') and e.get('uid') == uid:
-        out.append(('LKEnter' if e['kind'] == 'kenter' else 'LKLeave', {'t': e['t'], e['kind']: uid}))
-        ctx.count('label', 'LKEnter/LKLeave')
+    if e['kind'] == 'kenter' and e.get('uid') == uid:
+        out.append(('LKEnter', {'t': e['t'], 'kenter': uid}))
+        st['pending'] = True
+        ctx.count('label', 'LKEnter')
     ser = e.get('ser')
     if ser is not None and ser in w.instances and w.instances[ser]['uid'] == uid:
         i = w.instances[ser]
         ls = _local_ser(w, uid, ser)
         hid = cq.cnat(idx[i['id']])
         if e['kind'] == 'ksweep':
-            out.append((f"LKSweep {hid} {cq.cnat(ls)}", {'t': e['t'], 'ksweep': i['id']}))
-            ctx.count('label', 'LKSweep')
+            # the first stop_daemon(...) created after the memory was listed follows `list(memory.running_daemons.values())`
+            # with no suspension point in between: that is where the snapshot of the daemons was taken
+            if st.get('pending'):
+                out.append(('LKSnap', {'t': e['t'], 'ksnap': uid}))
+                st['pending'] = False
+                ctx.count('label', 'LKSnap')
         elif e['kind'] == 'end':
             out.append((f"LEnd {hid} {cq.cnat(ls)}", {'t': e['t'], 'end': i['id']}))
             ctx.count('label', 'LEnd')
@@ -961,7 +968,7 @@ def d_timer(ctx: fw.Ctx) -> list[fw.Case]:
             p = f"(TAfterRun {cq.cbool(c['point'] != 'run-fail')})"
             ra = cq.cbool(c['point'] == 'run-reset')
         tc = f"{{| t_interval := {c_oz(c['interval'])}; t_idle := {c_oz(c['idle'])}; t_sharp := {cq.cbool(c['sharp'])} |}}"
-        call = f'timer_tail false {tc} {ra} 12 {p}'
+        call = f'timer_tail true {tc} {ra} 12 {p}'      # the faithful model: the idle-only loop tests the stopper (ba077d7)
         if stalled:
             term = f'match {call} with None => true | Some _ => false end'
         else:
@@ -979,25 +986,8 @@ def d_timer(ctx: fw.Ctx) -> list[fw.Case]:
 
 
 # ----------------------------------------------------------------------------------------- known findings
-def match_f1(f: dict) -> bool:
-    if f['sig'] != 'stall':
-        return False
-    c = f['case']
-    s = c.get('stall') or {}
-    h = c.get('handler') or {}
-    return (s.get('func') == '_timer' and 'aiotime.sleep(handler.idle' in s.get('line', '') and s.get('stopper_set') is True
-            and h.get('kind') == 'timer' and h.get('idle') is not None and h.get('interval') is None)
-
-
-def match_f901(f: dict) -> bool:
-    if f['sig'] != 'killer-crash':
-        return False
-    c = (f['case'].get('crash') or {})
-    return (c.get('func') in ('daemon_killer', 'iter_all_daemon_memories') and 'RuntimeError' in c.get('error', '')
-            and 'dictionary' in c.get('error', '') and 'changed' in c.get('error', '') and 'during iteration' in c.get('error', '')
-            and ('running_daemons.values()' in (c.get('line') or '') or 'self._items.values()' in (c.get('line') or '')))
-
-
+# F1 (idle-only timer busy loop, fixed by ba077d7) and F901 (daemon_killer dict iteration, fixed by c948bdc) are FIXED: a stall or a
+# killer crash is a VIOLATION again; their corpus witnesses are regression cases that must pass.
 def match_f7(f: dict) -> bool:
     c = f['case']
     if f['sig'] in ('not-stopped-on-disappear', 'spawned-on-disappear'):
@@ -1027,7 +1017,7 @@ def nontrivial(w: cw.World) -> bool:
 
 
 def run(ctx: fw.Ctx) -> int:
-    ctx.matchers = {'F1': match_f1, 'F7': match_f7, 'F901': match_f901}
+    ctx.matchers = {'F7': match_f7}
     ctx.proofs()
     ok, logtxt = fw.build_models(['Model/Daemons.v'])
     if not ok:
@@ -1078,7 +1068,7 @@ def run(ctx: fw.Ctx) -> int:
 
 
 def replay(ctx: fw.Ctx, body: dict) -> bool:
-    ctx.matchers = {'F1': match_f1, 'F7': match_f7, 'F901': match_f901}
+    ctx.matchers = {'F7': match_f7}
     case = body.get('case') or {}
     sig = body.get('sig')
     if 'scenario' in case:
